@@ -605,6 +605,7 @@ type FaultClient struct {
 
 	StreamsOpened int
 	BytesRead     int64
+	streamURL     string // the primary the most recent stream was opened to
 	refused       int // stream attempts turned away while Refuse was set
 
 	// Inject, if set, replaces the next stream: the replica receives exactly these
@@ -778,6 +779,14 @@ func (fc *FaultClient) Isolate() {
 	}
 }
 
+// LastStreamURL returns the advertise URL of the primary the node's most recent stream
+// was opened to ("" if it never streamed).
+func (fc *FaultClient) LastStreamURL() string {
+	fc.mu.Lock()
+	defer fc.mu.Unlock()
+	return fc.streamURL
+}
+
 // Pause blocks stream reads (the replica lags) until Resume.
 func (fc *FaultClient) Pause() { fc.mu.Lock(); fc.paused = true; fc.mu.Unlock() }
 
@@ -875,6 +884,7 @@ func (fc *FaultClient) Stream(ctx context.Context, primaryURL string, nodeID uin
 	}
 	fc.mu.Lock()
 	fc.StreamsOpened++
+	fc.streamURL = primaryURL
 	id := fc.StreamsOpened
 	fc.events = append(fc.events, StreamEvent{Stream: id, Connect: announced})
 	fc.mu.Unlock()
